@@ -435,3 +435,16 @@ def inline(repo, fi: FuncInfo, t: T, depth: int = 3, keep=()) -> T:
 def norm(repo, fi: FuncInfo, t: T, keep=()) -> T:
     from sa.terms import canon
     return canon(inline(repo, fi, t, keep=keep))
+
+
+def same_expr(repo, fi: FuncInfo, stmt: ast.AST, value: ast.AST, expected_src: str, keep=()) -> bool:
+    """Does `value` (an expression of statement `stmt` in `fi`) compute `expected_src`?  Both sides are expanded through
+    local temporaries and value-only helpers and brought to normal form, so renaming / hoisting / helper extraction do
+    not matter; anything else does."""
+    ex = expander(repo, fi)
+    try:
+        want = norm(repo, fi, ex.term_of_source(expected_src, stmt), keep=keep)
+        got = norm(repo, fi, ex.term(value), keep=keep)
+    except Exception:
+        return False
+    return want.key() == got.key()
